@@ -44,6 +44,11 @@ Theorem C10_pipeline_depends_on_foreground_only : forall x c a a', nonneg_arr a 
   (c_matcher c = 0 \/ c_matcher c = 1 \/ c_matcher c = 2) ->
   Permutation (strip a) (strip a') -> pipeline x c a = pipeline x c a'.
 Proof. exact pipeline_foreground_naive. Qed.
+(* the same for the merge matcher, provided the supplied combined scores agree with the candidate scores on single predictions *)
+Theorem C10_pipeline_merge_matcher_padding_invariant : forall x c a, nonneg_arr a -> c_matcher c = 3 ->
+  (forall cd, In cd (cand_list x (c_mmetric c) a) -> fst cd = x_union x (cref cd) [cpred cd]) ->
+  pipeline x c (strip a) = pipeline x c a.
+Proof. exact pipeline_strip_merge. Qed.
 (* and the matcher sees the identical candidate list *)
 Theorem C10_candidate_list_padding_invariant : forall x m a, cand_list x m (strip a) = cand_list x m a.
 Proof. exact cand_list_strip. Qed.
